@@ -39,6 +39,7 @@ GENERATORS = [
     ('gen_edit.py', 'EditGen.v', 'translate-edit'),
     ('gen_glue.py', 'GlueGen.v', 'translate-glue'),
     ('gen_token.py', 'TokenGen.v', 'translate-token'),
+    ('gen_regex.py', 'RegexGen.v', 'translate-regex'),
 ]
 # properties whose theorems are about the reader model (the others quantify
 # over arbitrary trees / lists / buffers)
@@ -51,6 +52,7 @@ GEN_PROPS = {
     'translate-clo': (('C13',), 'C13clogen.v'),
     'translate-args': (('C18', 'C15'), ('C18gen.v', 'C15gen.v')),
     'translate-token': (('C13',), 'C13token.v'),
+    'translate-regex': (('C13',), 'C13regexgen.v'),
     'translate-reader': (READER_PROPS, ('ReadGen.v', 'C17glue.v')),
     'translate-glue': (('C19', 'C17'), ('C19glue.v', 'C17glue.v')),
     'translate-views': (('C03', 'C04', 'C15'), ('C03gen.v', 'C04gen.v', 'C15gen.v')),
